@@ -25,11 +25,27 @@ type stubAlloc struct {
 	mu      sync.Mutex
 	owner   map[int]string // address -> session id, for addresses currently handed out
 	rel     map[int]int    // address -> number of ReleaseIPv4 calls
+	allocs  map[int]int    // address -> number of successful Allocate calls
 	entered chan struct{}
 	resume  map[string]chan struct{} // per parked call (tag travels in the context)
 }
 
 type tagKey struct{}
+
+// atagKey marks an AssignAddress call that is to be held inside the allocator call (between the two critical
+// sections of AssignAddress)
+type atagKey struct{}
+
+func (a *stubAlloc) parkAssign(ctx context.Context) {
+	if tag, ok := ctx.Value(atagKey{}).(string); ok {
+		a.mu.Lock()
+		ch := make(chan struct{})
+		a.resume[tag] = ch
+		a.mu.Unlock()
+		a.entered <- struct{}{}
+		<-ch
+	}
+}
 
 func ipOf(n int) net.IP  { return net.IPv4(10, 9, 0, byte(n)) }
 func ip6Of(n int) net.IP { return net.IP{0x20, 0x01, 0x0d, 0xb8, 0, 0, 0, 0, 0, 0, 0, 0, 0, 0, 0, byte(n)} }
@@ -44,22 +60,26 @@ func numOf(ip net.IP) int {
 }
 
 func (a *stubAlloc) AllocateIPv4(ctx context.Context, s *subscriber.Session, pool string) (net.IP, net.IPMask, net.IP, error) {
+	a.parkAssign(ctx)
 	a.mu.Lock()
 	defer a.mu.Unlock()
 	for n := 2; n <= 4; n++ {
 		if _, used := a.owner[n]; !used {
 			a.owner[n] = s.ID
+			a.allocs[n]++
 			return ipOf(n), net.CIDRMask(24, 32), ipOf(1), nil
 		}
 	}
 	return nil, nil, nil, fmt.Errorf("exhausted")
 }
 func (a *stubAlloc) AllocateIPv6(ctx context.Context, s *subscriber.Session, pool string) (net.IP, *net.IPNet, error) {
+	a.parkAssign(ctx)
 	a.mu.Lock()
 	defer a.mu.Unlock()
 	for n := 2; n <= 4; n++ {
 		if _, used := a.owner[n]; !used {
 			a.owner[n] = s.ID
+			a.allocs[n]++
 			ip := ip6Of(n)
 			return ip, &net.IPNet{IP: ip.Mask(net.CIDRMask(64, 128)), Mask: net.CIDRMask(64, 128)}, nil
 		}
@@ -96,6 +116,7 @@ type run struct {
 	events map[string]int    // terminate events per session id
 	emu    sync.Mutex
 	calls  map[string]*pending
+	acalls map[string]*pending // AssignAddress calls held inside the allocator call
 	v6     bool // the run exercises the IPv6 halves of AssignAddress / TerminateSession (same model: one address per session)
 }
 
@@ -104,12 +125,18 @@ func (r *run) Close()       {}
 
 func (r *run) snapshot() string {
 	r.a.mu.Lock()
-	var rel, held []string
+	var rel, held, allocs []string
 	for n, c := range r.a.rel {
 		if c > 0 {
 			rel = append(rel, fmt.Sprintf("%d:%d", n, c))
 		}
 	}
+	for n, c := range r.a.allocs {
+		if c > 0 {
+			allocs = append(allocs, fmt.Sprintf("%d:%d", n, c))
+		}
+	}
+	sort.Strings(allocs)
 	for n, sid := range r.a.owner {
 		held = append(held, fmt.Sprintf("%d:%s", n, r.ids[sid]))
 	}
@@ -143,7 +170,7 @@ func (r *run) snapshot() string {
 		}
 		return strings.Join(x, ",")
 	}
-	return fmt.Sprintf("rel=%s held=%s sess=%s byip=%s ended=%s", j(rel), j(held), j(sess), j(byip), j(ev))
+	return fmt.Sprintf("rel=%s held=%s sess=%s byip=%s ended=%s allocs=%s", j(rel), j(held), j(sess), j(byip), j(ev), j(allocs))
 }
 
 func classify(err error) string {
@@ -151,6 +178,8 @@ func classify(err error) string {
 		return "ok"
 	}
 	switch {
+	case strings.Contains(err.Error(), "during address assignment"):
+		return "gone"
 	case strings.Contains(err.Error(), "not found"):
 		return "notfound"
 	case strings.Contains(err.Error(), "already exists"):
@@ -169,13 +198,14 @@ func (r *run) Do(op string) string {
 	switch f[0] {
 	case "new":
 		r.v6 = len(f) > 1 && f[1] == "v6"
-		r.a = &stubAlloc{owner: map[int]string{}, rel: map[int]int{}, entered: make(chan struct{}, 8), resume: map[string]chan struct{}{}}
+		r.a = &stubAlloc{owner: map[int]string{}, rel: map[int]int{}, allocs: map[int]int{}, entered: make(chan struct{}, 8), resume: map[string]chan struct{}{}}
 		cfg := subscriber.DefaultManagerConfig()
 		r.m = subscriber.NewManager(cfg, nil, r.a, zap.NewNop())
 		r.names = map[string]string{}
 		r.ids = map[string]string{}
 		r.events = map[string]int{}
 		r.calls = map[string]*pending{}
+		r.acalls = map[string]*pending{}
 		r.m.OnEvent(func(e *subscriber.SessionEvent) {
 			if e.Type == subscriber.EventSessionTerminate {
 				r.emu.Lock()
@@ -250,6 +280,47 @@ func (r *run) Do(op string) string {
 		case <-time.After(60 * time.Second):
 			return "hang"
 		}
+	case "abegin": // abegin P s1 : start an AssignAddress call and run it up to (into) the allocator call
+		id, ok := r.names[f[2]]
+		if !ok || r.acalls[f[1]] != nil {
+			return "badop"
+		}
+		p := &pending{done: make(chan string, 1)}
+		r.acalls[f[1]] = p
+		actx := context.WithValue(ctx, atagKey{}, f[1])
+		go func() {
+			if r.v6 {
+				p.done <- classify(r.m.AssignAddress(actx, id, "", "p6"))
+			} else {
+				p.done <- classify(r.m.AssignAddress(actx, id, "p", ""))
+			}
+		}()
+		select {
+		case <-r.a.entered:
+			return "parked " + r.snapshot()
+		case res := <-p.done:
+			delete(r.acalls, f[1])
+			return "done:" + res + " " + r.snapshot()
+		case <-time.After(60 * time.Second):
+			return "hang"
+		}
+	case "aresume": // aresume P : the allocator call returns and AssignAddress runs to its end
+		p := r.acalls[f[1]]
+		if p == nil {
+			return "badop"
+		}
+		r.a.mu.Lock()
+		ch := r.a.resume[f[1]]
+		delete(r.a.resume, f[1])
+		r.a.mu.Unlock()
+		close(ch)
+		select {
+		case res := <-p.done:
+			delete(r.acalls, f[1])
+			return "done:" + res + " " + r.snapshot()
+		case <-time.After(60 * time.Second):
+			return "hang"
+		}
 	case "tresume": // tresume A : let the parked call finish
 		p := r.calls[f[1]]
 		if p == nil {
@@ -283,19 +354,34 @@ func (comp) Gen(rg *rand.Rand, tier string, emit func([]string)) {
 		}
 		made := 0
 		parked := []string{}
+		aparked := []string{}
 		ln := 4 + rg.Intn(14)
 		for j := 0; j < ln; j++ {
-			x := rg.Intn(100)
+			x := rg.Intn(124)
 			switch {
+			case x >= 100 && x < 114:
+				// an AssignAddress call held inside the allocator call: terminations, other assignments and creates
+				// run in the window between its two critical sections
+				if made > 0 && len(aparked) < 2 {
+					name := []string{"P", "Q"}[len(aparked)]
+					if len(aparked) == 1 && aparked[0] == "Q" {
+						name = "P"
+					}
+					aparked = append(aparked, name)
+					seq = append(seq, fmt.Sprintf("abegin %s s%d", name, 1+rg.Intn(made)))
+				}
+			case x >= 114:
+				if len(aparked) > 0 {
+					k := rg.Intn(len(aparked))
+					seq = append(seq, "aresume "+aparked[k])
+					aparked = append(aparked[:k], aparked[k+1:]...)
+				}
 			case x < 22 && made < 5:
 				made++
 				seq = append(seq, fmt.Sprintf("create s%d m%d", made, 1+rg.Intn(4)))
 			case made == 0:
 				continue
 			case x < 45:
-				if len(parked) > 0 && rg.Intn(4) != 0 {
-					continue // an assignment racing a termination in progress is kept rare (recorded finding)
-				}
 				seq = append(seq, fmt.Sprintf("assign s%d", 1+rg.Intn(made)))
 			case x < 52:
 				// the calls that write Session.State: also while a termination is parked
@@ -322,8 +408,14 @@ func (comp) Gen(rg *rand.Rand, tier string, emit func([]string)) {
 				}
 			}
 		}
-		for _, p := range parked {
-			seq = append(seq, "tresume "+p)
+		for len(parked)+len(aparked) > 0 {
+			if len(aparked) > 0 && (len(parked) == 0 || rg.Intn(2) == 0) {
+				seq = append(seq, "aresume "+aparked[0])
+				aparked = aparked[1:]
+			} else {
+				seq = append(seq, "tresume "+parked[0])
+				parked = parked[1:]
+			}
 		}
 		emit(seq)
 	}
